@@ -35,3 +35,6 @@ func TestC20(t *testing.T)        { RunC20(t) }
 func FuzzWireMsg(f *testing.F)    { fuzzWireMsg(f) }
 func FuzzQuery(f *testing.F)      { fuzzQuery(f) }
 func FuzzCLIAddress(f *testing.F) { fuzzCLIAddress(f) }
+func TestC18(t *testing.T)      { RunC18(t) }
+func TestC18Proc(t *testing.T)  { RunC18Proc(t) }
+func TestC18Child(t *testing.T) { RunC18Child(t) }
